@@ -308,6 +308,17 @@ class ExprMixin:
             except Unsupported:
                 pass
         l, r = self.unwrap(l, node), self.unwrap(r, node)
+        if isinstance(op, ast.Sub) and type(l).__name__ == 'IterView' and l.kind == 'dict' and len(l.parts) == 1 and l.parts[0][1] == 'keys':
+            # d.keys() - other: the set of keys of d that are not in other (a set value)
+            box = l.parts[0][0]
+            lt = box.term
+            if type(r).__name__ == 'IterView' and r.kind == 'dict' and len(r.parts) == 1 and r.parts[0][1] == 'keys' and r.parts[0][0].term.sort() == lt.sort():
+                return VBox('set', z3.SetDifference(lt, r.parts[0][0].term), box.esort)
+            if isinstance(r, VBox) and r.kind == 'set' and r.term is not None and r.term.sort() == lt.sort():
+                return VBox('set', z3.SetDifference(lt, r.term), box.esort)
+            if not is_sym(r) and not contains_sym(r) and hasattr(r, '__len__') and len(r) == 0:
+                return VBox('set', lt, box.esort)
+            raise Unsupported('dict.keys() - value of this shape')
         if isinstance(l, PyList) or isinstance(r, PyList):
             if isinstance(op, ast.Add) and isinstance(l, PyList) and isinstance(r, PyList):
                 return PyList(l.items + r.items, l.kind)
